@@ -11,16 +11,19 @@ LEVEL = "exploration"
 N_CASES = {"quick": 400, "thorough": 10000}
 INPUTS_PER_CASE = 120
 MIN_NONTRIVIAL = 100
-RULE = ("case = one engine (random schema; error coercer one of: default, stamping, rewriting, yielding) x %d inputs: "
+RULE = ("case = one engine (random schema; error coercer one of: default, stamping, rewriting, yielding, annotating "
+        "error['extensions'] in place) x %d inputs: "
         "random bytes / punctuation soup; grammar-aware mutations of valid documents (token delete/duplicate/swap, brace "
         "imbalance, truncation at any byte, broken strings and escapes); nesting 1..200000 deep; unicode, BOM, NUL, invalid "
         "UTF-8 (bytes and str spellings); empty / blank / comment-only; x operation names (right, wrong, empty, ambiguous, "
-        "non-string) x variables (every JSON kind, non-dict, non-JSON Python values, wrong for the declared types) x contexts "
+        "non-string, spelled like null: 'None' / 'null' / 'undefined') x variables (every JSON kind, non-dict, non-JSON Python values, wrong for the declared types) x contexts "
         "(dict, None, object). Oracle: execute returns a dict {data} or {data, errors: non-empty list}; every error entry is "
         "a dict with str message, path list-or-null, locations = list of {line, column} positive ints lying inside the query "
         "text (line <= #lines, column <= bytes of that line + 1), extensions only when non-empty; inputs the independent "
         "parser rejects and failed operation selections give data null with ZERO resolver/hook calls; the custom error "
-        "coercer is awaited exactly once per reported error and what it returns is what appears (unique stamps). "
+        "coercer is awaited exactly once per reported error and what it returns is what appears (unique stamps), no error "
+        "dict it is handed carries an earlier call's stamp, and a response already returned does not change when the next "
+        "request is served. "
         "non-trivial = input answered with >=1 error; distinct by (input, operation name, variables)") % INPUTS_PER_CASE
 ASSUMPTIONS = ["'syntactically broken' is decided by vt/pyparser.py, the independent parser the shim is differentially tested against"]
 ANCHORS = [
